@@ -312,6 +312,7 @@ fn guarded<T>(what: &str, f: impl FnOnce() -> T) -> Result<T, String> {
 /// Exercise one rule through one loading entry point. Returns the number of entries built.
 pub fn exercise(r: &AnyRule, p: Path, existing: bool) -> Result<u64, String> {
     reset_world(T0_MS + 250);
+    let mut held = vec![];
     // the "seen" reference resource has a statistics node
     if let Built::Ok(e) = build(REF_SEEN, TrafficType::Inbound, 1) {
         e.exit();
@@ -328,6 +329,13 @@ pub fn exercise(r: &AnyRule, p: Path, existing: bool) -> Result<u64, String> {
         guarded("loading a benign rule", || load(&benign, Path::LoadAll))?;
         if let Built::Ok(e) = build(RES, TrafficType::Inbound, 1) {
             e.exit();
+        }
+        // ... and three entries still in flight while the rule under test arrives (a cap loaded
+        // now may already be exceeded)
+        for _ in 0..3 {
+            if let Built::Ok(e) = build_full(RES, TrafficType::Inbound, 1, Some(vec!["a".into()]), None) {
+                held.push(e);
+            }
         }
     }
     let valid = guarded("is_valid", || is_valid(r))?;
@@ -382,6 +390,12 @@ pub fn exercise(r: &AnyRule, p: Path, existing: bool) -> Result<u64, String> {
             })?;
         }
     }
+    guarded("exit of the entries that were in flight when the rule was loaded", move || {
+        for e in held {
+            advance_ms(1);
+            e.exit();
+        }
+    })?;
     // later calls keep working: every manager answers, an unrelated resource can be used
     guarded("health probe", || {
         let _ = (flow::get_rules(), cb::get_rules(), hotspot::get_rules(), isolation::get_rules(), system::get_rules());
@@ -438,7 +452,8 @@ pub fn run(o: &Opts, stats: &mut Stats) -> Option<usize> {
                     continue;
                 }
                 // quick: a covering subset (every 11th unit: coprime with the 6 path x existing variants)
-                if idx % stride != 0 && !id_of(c).contains('d') {
+                // (the dense sweeps and the small isolation / system catalogues are always visited)
+                if idx % stride != 0 && !id_of(c).contains('d') && !matches!(c, AnyRule::Iso(_) | AnyRule::Sys(_)) {
                     continue;
                 }
                 set_now_cfg(json!({"case": ci, "path": pi, "existing": existing, "rule": format!("{:?}", c)}).to_string());
